@@ -216,10 +216,13 @@ FAILS = ['missing', 'missing-after-wrong-shape', 'wrong-dtype', 'wrong-dtype-sec
          # the same set were converted); the cause is then removed through the public setters
          'eflr-param-values', 'eflr-zone-domain', 'eflr-chan-element-limit',
          # not a write: an add_channel call that carries data and is rejected (its array must not stay behind)
-         'rejected-add-channel-with-data', 'rejected-add-channel-with-data-same-name']
+         'rejected-add-channel-with-data', 'rejected-add-channel-with-data-same-name',
+         # not a write: an assignment through a public setter that is rejected (between writes it must not disturb what
+         # the next write derives from its data)
+         'rejected-assign-cast', 'rejected-assign-dimension', 'rejected-assign-frame-attr']
 # successful earlier writes (they must leave no trace in the next write either: e.g. a remembered data dict)
 OKS = ['ok-dict', 'ok-dict-extra-key', 'ok-struct', 'ok-window']
-FINALS = ['dict', 'struct', 'h5', 'dict-missing-key']
+FINALS = ['dict', 'struct', 'h5', 'dict-missing-key', 'dict-other-dtype']
 
 
 # one rejected call per object kind: (bad keyword arguments, valid keyword arguments of the call that follows)
@@ -357,6 +360,8 @@ def _final_kwargs(final):
             f.create_dataset('/A', data=g['A'])
             f.create_dataset('/B', data=g['B'])
         return {'data': p}, True
+    if final == 'dict-other-dtype':
+        return {'data': {'A': g['A'].astype('float32'), 'B': S.make_array(S.arr_spec('uint8', [3, 3], list(range(9))))}}, True
     if final == 'dict-missing-key':
         return {'data': {'A': g['A']}}, False        # must raise: data set B is nowhere to be found
     raise ValueError(final)
@@ -433,6 +438,19 @@ def run_case(case):
                                         data=S.arr_spec('uint16', [3, 2], [9, 9, 9, 9, 9, 9])))
             if st == 'ok':
                 viol.append((f"C20:not-rejected:channel", f"{case}"))
+            continue
+        if kind.startswith('rejected-assign'):
+            import numpy as np
+            try:
+                if kind.endswith('cast'):
+                    b.objs['CA'].cast_dtype = np.int64
+                elif kind.endswith('dimension'):
+                    b.objs['CB'].dimension.value = ['wide']
+                else:
+                    b.objs['F'].spacing.value = 'narrow'
+                viol.append((f"C20:not-rejected:{kind}", f"{case}"))
+            except Exception:  # noqa
+                pass
             continue
         kw = _failing_kwargs(kind, path)
         target = path
